@@ -311,6 +311,7 @@ def run(ck, fb, fbd):
     # toggling a kind off and on must give the cache that incremental maintenance would have kept: the rebuild has to
     # skip pending (deferred) deletions exactly as the unlink sites of delete_*_core do (shared with C01/C04)
     lockstep.compute_rule(lc)
+    lockstep.value_rules_rebuild(lc)
 
     ck.analysed.update({"functions_scanned": len(fns), "element_access_sites": n_sites, "sites_discharged_locally": n_guarded, "call_sites_checked": n_call_checks,
                         "functions_with_contract": len(contracts), "per_cache_sites": dict(per_cache)})
